@@ -193,7 +193,7 @@ def hand_abstract_schema():
         {"name": "x", "type": N("Int"), "args": []}, {"name": "y", "type": N("Int"), "args": []},
         {"name": "deep", "type": N("Info"), "args": []}, {"name": "must", "type": NN(N("Int")), "args": []},
         {"name": "odd", "type": NN(N("Odd")), "args": []}, {"name": "odds", "type": L(NN(N("Odd"))), "args": []},
-        {"name": "oddMaybe", "type": N("Odd"), "args": []}]}
+        {"name": "oddMaybe", "type": N("Odd"), "args": []}, {"name": "more", "type": L(N("Info")), "args": []}]}
     named = [{"name": "name", "type": N("String"), "args": []}, {"name": "info", "type": N("Info"), "args": []},
              {"name": "sh", "type": L(N("Named")), "args": []}]
     types["Named"] = {"kind": "INTERFACE", "fields": [dict(f) for f in named]}
@@ -206,11 +206,21 @@ def hand_abstract_schema():
         {"name": "items", "type": L(N("Named")), "args": []}, {"name": "one", "type": N("Named"), "args": []},
         {"name": "ab", "type": L(NN(N("AB"))), "args": []}, {"name": "sh", "type": L(N("Named")), "args": []},
         {"name": "plain", "type": N("Info"), "args": []}, {"name": "strictItems", "type": L(NN(N("Named"))), "args": []},
-        {"name": "oddRoot", "type": NN(N("Odd")), "args": []}]}
+        {"name": "oddRoot", "type": NN(N("Odd")), "args": []},
+        # nullable lists directly inside lists, a non-null further down: a failing item nulls the INNER list only
+        {"name": "grid", "type": L(L(NN(N("Int")))), "args": []},
+        {"name": "cube", "type": L(L(L(NN(N("Int"))))), "args": []},
+        {"name": "infoGrid", "type": L(L(NN(N("Info")))), "args": []},
+        {"name": "oddGrid", "type": NN(L(L(NN(N("Odd"))))), "args": []},
+        {"name": "namedGrid", "type": L(L(NN(N("Named")))), "args": []},
+        # the whole resolver-output universe at once, per built-in scalar
+        {"name": "sweepInt", "type": L(N("Int")), "args": []}, {"name": "sweepFloat", "type": L(N("Float")), "args": []},
+        {"name": "sweepString", "type": L(N("String")), "args": []}, {"name": "sweepBoolean", "type": L(N("Boolean")), "args": []},
+        {"name": "sweepID", "type": L(N("ID")), "args": []}]}
     s = {"types": types, "query": "Query", "mutation": None, "subscription": None}
     s["resolvers"] = {("Query", f["name"]) for f in types["Query"]["fields"]} | {("A", "sh"), ("B", "sh"), ("B", "info"),
                                                                                ("Info", "deep"), ("Info", "odd"), ("Info", "odds"),
-                                                                               ("Info", "oddMaybe")}
+                                                                               ("Info", "oddMaybe"), ("Info", "more")}
     s["type_resolvers"] = {"AB"}
     s["field_type_resolvers"] = {("A", "sh"), ("Query", "sh")}
     return s
@@ -233,6 +243,12 @@ HAND_ABSTRACT_QUERIES = [
     # a custom scalar whose result coercion can yield null for a non-null value (99): at T!, in [T!], at a nullable place
     ("{ plain { x odd } items { info { odds oddMaybe } } one { name info { odd y } } }", {}),
     ("{ plain { deep { odds odd } oddMaybe } }", {}),
+    ("{ sweepInt sweepFloat }", {}), ("{ sweepString sweepBoolean sweepID }", {}),
+    # a list field selected again inside its own sub-selection
+    ("{ plain { more { x more { y more { x } } } } items { sh { sh { name sh { __typename } } } } }", {}),
+    # nested lists: [[T!]], [[[T!]]], [[Obj!]], [[Odd!]]!, [[Iface!]]
+    ("{ grid cube plain { x } }", {}),
+    ("{ infoGrid { x must odd } oddGrid namedGrid { name ... on A { a } } }", {}),
 ]
 # the last two alone, for checks that must not null the whole data
 HAND_ROOT_ODD = ("{ oddRoot plain { x } }", {})
@@ -471,6 +487,20 @@ class UserGraphQLError(Exception):
     pass
 
 
+class PlainCoercible(Exception):
+    """The documented way to customise an error's output: an exception that is NOT derived from the library's error
+    class and only exposes `coerce_value` (no `path` / `locations` attributes)."""
+
+    def coerce_value(self, *_args, path=None, locations=None, **_kwargs):
+        locs = []
+        try:
+            for location in locations:
+                locs.append(location.collect_value())
+        except (AttributeError, TypeError):
+            pass
+        return {"message": str(self), "path": path, "locations": locs}
+
+
 def make_user_error_class():
     from tartiflette.types.exceptions.tartiflette import TartifletteError
 
@@ -478,6 +508,17 @@ def make_user_error_class():
         pass
 
     return DemoError
+
+
+def leaf_universe(name):
+    """EVERY value of the resolver-output universe for one built-in scalar (well-typed and adversarial), as one list:
+    a field of type [T] returning it shows, in one request, what result coercion does with each of them."""
+    nan, inf = float("nan"), float("inf")
+    common_ = [None, True, False, 0, 1, -1, 7, 42, 2**31 - 1, -(2**31), 2**31, -(2**31) - 1, 10**30, 10**400,
+               0.0, -0.0, 1.0, 3.0, 2.5, -2.25, 0.1, 1e9, 1e10, 2147483647.0, -2147483648.0, 2147483648.0, 1e300, nan, inf, -inf,
+               "", "abc", "12", "3.0", "2.5", "nan", "inf", "-Infinity", "1e999", " 7 ", " NaN ", "2147483648", "-2147483649",
+               "true", "\u00e9", "a b", [1], [], {"a": 1}, Opaque("bytes"), Opaque("tuple"), Opaque("set"), Opaque("object")]
+    return list(common_)
 
 
 class Oracle:
@@ -605,10 +646,14 @@ class Oracle:
         """('ret', value) | ('raise', msg, is_graphql, ext)"""
         rng = self.rng_for("r", tuple(path), tname, fname, repr(sorted((args or {}).items(), key=repr)))
         kind = self.faults.get(tuple(path))
+        if fname.startswith("sweep") and not kind:
+            return ("ret", leaf_universe(named_of(ftype)))
         if kind:
             msg = USER_PREFIX + "/".join(map(str, path))
             if kind == "raise":
                 return ("raise", msg, False, False)
+            if kind == "raise_coercible":
+                return ("raise", msg, False, False, "coercible")
             if kind == "raise_gql":
                 return ("raise", msg, True, False)
             if kind == "raise_gql_ext":
@@ -669,10 +714,12 @@ class Oracle:
                 return ("ret", planted if planted is not None else exc)
         r = rng.random()
         if r < self.fail:
-            kind = rng.choice(["raise", "raise_gql", "raise_gql_ext", "value"])
+            kind = rng.choice(["raise", "raise_gql", "raise_gql_ext", "value", "raise_coercible"])
             msg = USER_PREFIX + "/".join(map(str, path))
             if kind == "value":
                 return ("ret", ValueError(msg))
+            if kind == "raise_coercible":
+                return ("raise", msg, False, False, "coercible")
             return ("raise", msg, kind != "raise", kind == "raise_gql_ext")
         return ("ret", self.value(rng, ftype, 0))
 
@@ -765,6 +812,8 @@ async def build_engine(s, schema_name, oracle_ref, rec, cfg=None, sdl=None):
             rec.calls.append(entry)
             if out[2]:
                 raise DemoError(out[1], extensions={"code": 7} if out[3] else None)
+            if len(out) > 4:
+                raise PlainCoercible(out[1])
             raise RuntimeError(out[1])
         return r
 
